@@ -103,6 +103,9 @@ type recWriter struct {
 	formatter plugintypes.AuditLogFormatter
 	Records   []recRecord
 	InitErr   error
+	// FailAfterDelivery: the next n writes store the record and then report an error
+	FailAfterDelivery int
+	Failed            int
 }
 
 type recRecord struct {
@@ -137,6 +140,12 @@ func (w *recWriter) Write(al plugintypes.AuditLog) error {
 		rec.Formatted = append([]byte(nil), b...)
 	}
 	w.Records = append(w.Records, rec)
+	if w.FailAfterDelivery > 0 {
+		// injected fault: the record was delivered, the acknowledgement is lost
+		w.FailAfterDelivery--
+		w.Failed++
+		return errors.New("simulated audit sink: record stored, acknowledgement lost")
+	}
 	return nil
 }
 
